@@ -3,6 +3,7 @@ package checks
 import (
 	"encoding/json"
 	"fmt"
+	"math"
 	"math/big"
 
 	"go.1password.io/spg"
@@ -145,9 +146,24 @@ func c04Coverage(c *core.Ctx, w WLCase) {
 		sepSeen[i] = map[string]bool{}
 	}
 	bad := ""
-	st := exploreCell(r.Generate, CellOpt{DepthCut: 4*L + 8, Fallback: 2, MaxMenu: 1 << 17, MaxLeaves: 3_000_000, Dev: 1}, func(l *Leaf) {
+	maxBits := 0.0
+	st := exploreCell(r.Generate, CellOpt{DepthCut: 4*L + 8, Fallback: 2, MaxMenu: 1 << 17, MaxLeaves: 3_000_000, Dev: 1, Log: true}, func(l *Leaf) {
 		if l.Out.Aborted || bad != "" {
 			return
+		}
+		bits := 0.0
+		for _, d := range l.Tape.Log {
+			if d.Cont {
+				continue
+			}
+			if d.Announced {
+				bits += math.Log2(float64(d.Bound))
+			} else {
+				bits += 32
+			}
+		}
+		if bits > maxBits {
+			maxBits = bits
 		}
 		if !l.Out.HasPw {
 			bad = "Generate failed: " + l.Out.Err + l.Out.Panic
@@ -201,6 +217,36 @@ func c04Coverage(c *core.Ctx, w WLCase) {
 		if ref.Title(k) == k {
 			capitalisable = false
 		}
+	}
+	// pigeonhole: the draws of one generation must be able to tell all
+	// elements of the product space apart
+	if capitalisable {
+		capBits, known := 0.0, true
+		switch w.Cap {
+		case "none", "first", "all":
+		case "one":
+			capBits = math.Log2(float64(L))
+		case "random":
+			capBits = float64(L)
+		default:
+			known = false
+		}
+		if known {
+			need := float64(L)*math.Log2(float64(len(kept))) + capBits
+			if len(seps) > 1 {
+				need += float64(L-1) * math.Log2(float64(len(seps)))
+			}
+			if maxBits < need-1e-6 {
+				c.Violation(key+" pigeonhole", fmt.Sprintf("Length %d, scheme %s: the recipe has 2^%.3f possible passwords but one generation only makes draws worth %.3f bits - some of them can never be produced", L, w.Cap, need, maxBits), rp)
+				return
+			}
+		}
+	}
+	if st.Unannounced > 0 {
+		// raw 32-bit words are explored through a small menu only: a
+		// coordinate value that the menu cannot produce proves nothing
+		c.Incomplete("coverage of %s: raw 32-bit reads present, coordinate coverage not decided (pigeonhole bound checked)", mustJSON(w))
+		return
 	}
 	for i := 0; i < L; i++ {
 		for _, k := range kept {
